@@ -209,8 +209,11 @@ func (w *World) deliver(from *udpSock, to Addr, d dgram) {
 		if s.connected && s.remote.Port != d.from.Port {
 			continue // a connected socket only hears its peer
 		}
-		if s.demux != nil {
-			s.demux(d)
+		s.mu.Lock()
+		demux := s.demux
+		s.mu.Unlock()
+		if demux != nil {
+			demux(d)
 		} else {
 			s.in.push(d)
 		}
@@ -438,7 +441,9 @@ func PionListen(network string, laddr *net.UDPAddr) (net.Listener, error) {
 		return nil, err
 	}
 	l := &pionListener{w: w, s: s, conns: map[int]*pionConn{}, acceptQ: make(chan *pionConn, 128), done: make(chan struct{})}
+	s.mu.Lock()
 	s.demux = l.dispatch
+	s.mu.Unlock()
 	return l, nil
 }
 
